@@ -245,6 +245,8 @@ def run(ctx):
     rule_env_flow(ctx)
     rule_siblings(ctx)
     rule_copattern_tuples(ctx)
+    from . import c01
+    c01.rule_erasure_arity(ctx)
     ctx.assume("the audited references are a correct CK machine for CBPV (by inspection of eval.rs / link.rs against the "
                "repository's DESIGN.md); host operations are C06; of the elaboration of copattern clauses only the argument / pattern tuple agreement is covered")
     return {}
